@@ -22,13 +22,18 @@ RULE = ("S: every message that is a sequence of <= K tokens from {a, bc, space, 
         "in which queued lines reach the wire is judged.  An over-long line is attributed to its cause: multibyte "
         "characters, quoted NUL/0x10, or a quoted CR/LF (which the unmodified splitter never lets through).  The content "
         "and the no-CR/LF clause must hold under one and the same reading of the lines (as sent / low-dequoted).  "
+        "T: sessions of two calls on ONE rate-limited client - msg('u', m1) then notice('#chan', m2), m1 and m2 every "
+        "message of <= 2 tokens over 8 tokens - with the second call made after the queue drained to full quiescence, "
+        "immediately, or after one clock tick; the wire lines are attributed to the calls by their command prefix and "
+        "every call is judged on its own (state carried from one message to the next).  "
         "Q: every string of <= 5 characters over {0x10, backslash, 0x01, LF, CR, NUL, a, n, r, 0} through "
         "lowQuote/lowDequote, ctcpQuote/ctcpDequote and their composition.  "
         "non-trivial = distinct transport outputs with >= 2 lines, or a quoted string that differs from its input")
 BOUNDS = {"quick": "S: K<=4 over 12 tokens, rooms {1,2,4,5,10}, msg+notice; K=5 over 8 tokens, msg; R (lineRate): K<=3 over "
-                   "12 tokens msg, K<=4 over 8 tokens notice; Q: length <= 5",
+                   "12 tokens msg, K<=4 over 8 tokens notice; T (two-call sessions): 73 x 73 messages x rooms {1,4} x 3 gaps; "
+                   "Q: length <= 5",
           "thorough": "S: K<=5 over 12 tokens, rooms {1,2,3,4,5,8,10}, msg+notice; R (lineRate): K<=4 over 12 tokens, "
-                      "msg+notice; Q: length <= 6"}
+                      "msg+notice; T: 73 x 73 messages x rooms {1,2,4,10} x 3 gaps; Q: length <= 6"}
 ASSUMPTIONS = [
     "lineRate is None, or 0.5 s with twisted.words.protocols.irc.reactor rebound to a task.Clock by the harness "
     "(the module-global seam the client schedules its queue on); user/channel names are ASCII; messages are encodable text (no lone surrogates)",
@@ -36,9 +41,11 @@ ASSUMPTIONS = [
     "a character's wire cost is its UTF-8 length, 2 for NUL and 0x10 (low-level quoting) - used only to decide whether "
     "a limit is satisfiable at all, never for the verdict on a line",
 ]
-MIN = {"quick": {"evaluations": 370000, "nontrivial": 135000, "outcomes": 9, "rate_limited_cases_with_3_or_more_lines": 8000},
+MIN = {"quick": {"evaluations": 370000, "nontrivial": 135000, "outcomes": 9, "rate_limited_cases_with_3_or_more_lines": 8000,
+                 "sessions_with_lines_from_both_calls": 15000},
        "thorough": {"evaluations": 3400000, "nontrivial": 1200000, "outcomes": 9,
-                    "rate_limited_cases_with_3_or_more_lines": 100000}}
+                    "rate_limited_cases_with_3_or_more_lines": 70000,
+                    "sessions_with_lines_from_both_calls": 30000}}
 
 LONGW = "0123456789AB"
 TOK12 = ["a", "bc", " ", "\n", "\r", "\t", "-", "é", "\U0001F600", "\x10", "\x00", LONGW]
@@ -134,7 +141,6 @@ def judge(kind, message, room, client=None, rate=None):
     limit = len(prefix) + 2 + room
     want = nonws(message)
     satisfiable = all(char_cost(ch) <= room for ch in want)
-    bad = []
     exc = None
     try:
         _send(c, kind, user, message, limit, rate)
@@ -142,7 +148,20 @@ def judge(kind, message, room, client=None, rate=None):
         exc = e
     stream = t.value()
     t.clear()
+    return oracle(kind, message, room, stream, exc, rate)
+
+
+def oracle(kind, message, room, stream, exc, rate, session=None):
+    """Judge the wire bytes that belong to ONE msg()/notice() call."""
+    cmd, user = KINDS[kind]
+    prefix = ("%s %s :" % (cmd, user)).encode("ascii")
+    limit = len(prefix) + 2 + room
+    want = nonws(message)
+    satisfiable = all(char_cost(ch) <= room for ch in want)
+    bad = []
     det = {"kind": kind, "message": message, "limit": limit, "room": room, "sent": stream[:400], "lineRate": rate}
+    if session:
+        det["session"] = session
     if exc is not None:
         if isinstance(exc, ValueError) and not satisfiable:
             return [], "refused-unsatisfiable", stream
@@ -224,6 +243,67 @@ def judge(kind, message, room, client=None, rate=None):
     return [], ("nothing-sent" if not pieces else "one-line" if len(pieces) == 1 else "many-lines"), stream
 
 
+GAPS = ["quiescent", "immediately", "after-one-tick"]
+
+
+def judge_session(m1, m2, room, gap):
+    """Two calls on ONE rate-limited client: msg('u', m1), then notice('#chan', m2) either after the queue has drained
+    to full quiescence, immediately, or after one tick of the clock; every call is judged on its own lines."""
+    from twisted.words.protocols import irc
+    from twisted.internet import task
+    c, t = make_client(RATE)
+    clock = task.Clock()
+    saved = irc.reactor
+    irc.reactor = clock
+    calls = [("msg", m1), ("notice", m2)]
+    excs = [None, None]
+
+    def drain():
+        for _ in range(100000):
+            if not clock.getDelayedCalls():
+                return
+            clock.advance(RATE)
+        raise AssertionError("rate-limited queue never drains")
+    try:
+        for i, (kind, message) in enumerate(calls):
+            cmd, user = KINDS[kind]
+            limit = len("%s %s :" % (cmd, user)) + 2 + room
+            try:
+                getattr(c, kind)(user, message, limit)
+            except Exception as e:  # noqa - judged by the oracle
+                excs[i] = e
+            if i == 0:
+                if gap == "quiescent":
+                    drain()
+                elif gap == "after-one-tick":
+                    clock.advance(RATE)
+        drain()
+    finally:
+        irc.reactor = saved
+    stream = t.value()
+    # hand every wire line to the call whose command prefix it carries
+    streams = [b"", b""]
+    stray = []
+    pieces = stream.split(b"\n")
+    tail = pieces.pop()
+    for piece in pieces:
+        for i, (kind, _) in enumerate(calls):
+            if piece.startswith(("%s %s :" % KINDS[kind]).encode("ascii")):
+                streams[i] += piece + b"\n"
+                break
+        else:
+            stray.append(piece)
+    bad, outcomes = [], []
+    sess = {"first": m1, "second": m2, "gap": gap, "wire": stream[:400]}
+    if tail or stray:
+        bad.append((P + "line-contains-LF", dict(sess, stray=stray[:3], tail=tail)))
+    for i, (kind, message) in enumerate(calls):
+        b, o, _ = oracle(kind, message, room, streams[i], excs[i], RATE, dict(sess, judged="first" if i == 0 else "second"))
+        bad.extend(b)
+        outcomes.append(o)
+    return bad, "+".join(outcomes), stream
+
+
 def judge_quote(s):
     from twisted.words.protocols import irc
     bad = []
@@ -256,6 +336,8 @@ def shards(tier, seed):
             out.append(["R", "msg", 12, f, 3])
         for f in range(8):
             out.append(["R", "notice", 8, f, 4])
+        for k in range(NSH_T):
+            out.append(["T", k, [1, 4]])
         qn = 5
     else:
         for kind in ("msg", "notice"):
@@ -267,10 +349,23 @@ def shards(tier, seed):
         for f in range(12):
             out.append(["R", "msg", 12, f, 4])
             out.append(["R", "notice", 12, f, 4])
+        for k in range(NSH_T):
+            out.append(["T", k, [1, 2, 4, 10]])
         qn = 6
     for f in range(len(QALPHA)):
         out.append(["Q", f, qn])
     out.append(["Q", None, qn])
+    return out
+
+
+NSH_T = 12
+
+
+def session_messages():
+    """Messages of 0..2 tokens over the 8-token alphabet (73), for both calls of a session."""
+    out = [""]
+    out += list(TOK8)
+    out += [a + b for a in TOK8 for b in TOK8]
     return out
 
 
@@ -308,6 +403,25 @@ def run_shard(shard, tier, seed):
             for sig, det in bad:
                 st.violation(sig, det, {"family": "Q", "text": [ord(ch) for ch in s]})
         return st
+    if shard[0] == "T":
+        msgs = session_messages()
+        for m1 in msgs[shard[1]::NSH_T]:
+            for m2 in msgs:
+                for room in shard[2]:
+                    for gap in GAPS:
+                        st.evaluations += 1
+                        bad, outcome, stream = judge_session(m1, m2, room, gap)
+                        st.outcome("session:" + gap)
+                        if "many-lines" in outcome:
+                            st.nt((stream, gap))
+                        if stream.count(b"PRIVMSG") >= 1 and stream.count(b"NOTICE") >= 1:
+                            st.count("sessions_with_lines_from_both_calls")
+                        for sig, det in bad:
+                            st.outcome("bad:" + sig.split(":", 1)[1])
+                            st.violation(sig, det, {"family": "T", "m1": [ord(ch) for ch in m1], "m2": [ord(ch) for ch in m2],
+                                                    "room": room, "gap": gap})
+        st.sample({"session": [m1, m2], "room": room, "gaps": GAPS})
+        return st
     rooms = ROOMS_Q if tier == "quick" else ROOMS_T
     kind = shard[1]
     rate = RATE if shard[0] == "R" else None
@@ -333,4 +447,6 @@ def run_shard(shard, tier, seed):
 def replay(w):
     if w["family"] == "Q":
         return judge_quote("".join(chr(i) for i in w["text"]))[0]
+    if w["family"] == "T":
+        return judge_session("".join(chr(i) for i in w["m1"]), "".join(chr(i) for i in w["m2"]), w["room"], w["gap"])[0]
     return judge(w["kind"], "".join(chr(i) for i in w["message"]), w["room"], None, w.get("rate"))[0]
